@@ -25,7 +25,7 @@ EXPLANATION = (
     "codes are distinct, each is assigned under the conjunction of exactly its two non-NaN inputs, every comparison "
     "with a mode uses a defined code, and creation enforces 'exactly two'. (R11.3) res qext_w <- QEXT, deltat_k <- "
     "T[flow-corrected from node] - TOUTINIT for consumer and circulation pump, the pump's qext is m (cp(T_out) T_out - "
-    "cp(T_in) T_in), the heat exchanger writes QEXT <- qext_w. Decided: the formulas and wiring; not decided: "
+    "cp(T_in) T_in), the heat exchanger writes QEXT <- qext_w. (R11.4, shared with C07 R7.1) the numba twin of the thermal kernel computes the same residuals as the numpy kernel the mode formulas are checked against. Decided: the formulas and wiring; not decided: "
     "loop-level energy closure of a solved network (a sum over runtime results).")
 ASSUMPTIONS = [phys.POSITIVITY_TEXT, "transient=False"]
 TECHNIQUE = "per-class value numbering of component hooks vs one transcribed relation; class-attribute table checks"
